@@ -713,3 +713,391 @@ REGISTRY["C12"] = {"phases": c12_phases,
                    "design": lambda ctx: [{"module": "MC_Ots", "cfg": "MC_Ots.cfg", "workers": 8, "xmx": "8g"}],
                    "coverage_extra": lambda ctx, cov: {"digest_space_sizes": ctx.get("digest_space"),
                                                        "exhaustive_on_spec": "MC_Ots: all 12 parameter sets, every attainable checksum value, every digit position x byte value, all pairs of one-byte digests"}}
+
+
+# =================================================================================================
+# C13 - leaf selection follows the mixed-radix rule for every key shape (+ C05 arithmetic)
+# =================================================================================================
+def gen_arith(ctx, tuples, tag):
+    inp = os.path.join(ctx["workdir"], "arith_in_%s.ndjson" % tag)
+    outp = os.path.join(ctx["workdir"], "arith_out_%s.ndjson" % tag)
+    with open(inp, "w") as f:
+        for t in tuples:
+            f.write(json.dumps({"heights": list(t)}) + "\n")
+    rc, out, st = run_tlc("GenArith", "GenArith.cfg", os.path.join(ctx["workdir"], "meta-ga-" + tag), env={"GEN_IN": inp, "GEN_OUT": outp},
+                          timeout=1500, xmx="4g")
+    if rc != 0 or not os.path.exists(outp):
+        raise ToolError("GenArith failed: " + out[-1500:])
+    return [json.loads(x) for x in open(outp)]
+
+
+def all_tuples(heights, maxlen):
+    import itertools
+    for ln in range(1, maxlen + 1):
+        for t in itertools.product(heights, repeat=ln):
+            yield t
+
+
+def arith_groups(ctx, quick):
+    from vlib import HT
+    heights = [2, 5, 10, 15, 20, 25]
+    tuples = list(all_tuples(heights, 2 if quick else 3))
+    # sampled longer tuples (VERIF_SEED), always including the uniform extremes and tall lists
+    extra = [(25,) * k for k in range(3, 9)] + [(5,) * 8, (2,) * 8, (25, 20, 15, 10, 5, 2), (2, 5, 10, 15, 20, 25), (20, 20, 20, 5), (25, 25, 10, 5)]
+    nsample = 150 if quick else 3000
+    for i in range(nsample):
+        ln = 3 + det_int("c13/len/%d" % i, 6)
+        extra.append(tuple(heights[det_int("c13/h/%d/%d" % (i, j), 6)] for j in range(ln)))
+    tuples += extra
+    # ask the specification for the boundary counters, in parallel chunks
+    from concurrent.futures import ThreadPoolExecutor
+    chunks = [tuples[i::8] for i in range(8)]
+    with ThreadPoolExecutor(max_workers=8) as ex:
+        outs = list(ex.map(lambda ic: gen_arith(ctx, ic[1], str(ic[0])), enumerate(chunks)))
+    groups = []
+    nev = 0
+    for ci, out in enumerate(outs):
+        for start in range(0, len(out), 15):
+            cmds = []
+            for rec in out[start:start + 15]:
+                hs = rec["heights"]
+                pb = bytes((HT[h] << 4) + 4 for h in hs) + b"\xff" * (8 - len(hs))
+                alg = ALGS[(len(hs) + hs[0]) % 6]
+                ctrs = list(rec["ctrs"]) + [det_bytes("c13/rnd/%s/%d" % (hs, r), 8).hex() for r in range(2)]
+                for c in ctrs:
+                    cmds.append({"op": "hook", "hook": "ctr", "alg": alg, "params": pb.hex(), "heights": hs, "ctr": c})
+                    nev += 1
+            groups.append({"name": "c13/arith/%d/%d" % (ci, start), "cmds": cmds, "cost": 0.2 + 0.01 * len(cmds)})
+    ctx["arith_tuples"] = len(tuples)
+    return groups
+
+
+def c13_phases(ctx):
+    quick = ctx["tier"] == "quick"
+    groups = arith_groups(ctx, quick)
+    # end to end: the q fields of released signatures for affordable shapes with MIXED heights
+    for ai, alg in enumerate(ALGS if not quick else ALGS[::3]):
+        groups.append(walk_group("c13/e2e/%s/2-5" % alg, alg, [(4, 2), (4, 5)], [0, 31, 32, 33, 95, 96, 127], [3], light=True))
+        groups.append(walk_group("c13/e2e/%s/5-2" % alg, alg, [(4, 5), (4, 2)], [0, 3, 4, 5, 63, 64, 127], [3], light=True))
+        groups.append(walk_group("c13/e2e/%s/2-5-2" % alg, alg, [(8, 2), (4, 5), (2, 2)], [0, 3, 4, 127, 128, 129, 511], [3], light=True))
+        if not quick:
+            groups.append(walk_group("c13/e2e/%s/5-10" % alg, alg, [(8, 5), (4, 10)], [1023, 1024, 1025, 32767], [3], light=True))
+            groups.append(walk_group("c13/e2e/%s/10-2" % alg, alg, [(8, 10), (4, 2)], [3, 4, 4095], [3], light=True))
+    return [{"tag": "c13", "groups": groups,
+             "space": "height tuples (all short ones + VERIF_SEED-sampled longer ones + tall lists) x boundary counters from MC_Arith!BoundaryCtrs + random; "
+                      "end to end through the leaf-index fields of signatures for mixed-height shapes"}]
+
+
+def c13_design(ctx):
+    if ctx["tier"] == "quick":
+        return [{"module": "MC_Arith", "cfg": "MC_Arith_quick.cfg", "workers": 16, "xmx": "8g"}]
+    return [{"module": "MC_Arith", "cfg": "MC_Arith_quick.cfg", "workers": 16, "xmx": "8g"},
+            {"module": "MC_Arith", "cfg": "MC_Arith_full.cfg", "workers": 16, "xmx": "8g", "timeout": 3000}]
+
+
+REGISTRY["C13"] = {"phases": c13_phases, "design": c13_design,
+                   "coverage_extra": lambda ctx, cov: {"height_tuples_replayed_on_code": ctx.get("arith_tuples")}}
+
+
+# =================================================================================================
+# C10 - auxiliary data is a transparent, authenticated cache and nothing more
+# =================================================================================================
+def aux_full_len(alg, h):
+    n = N_OF[alg]
+    return 4 + n + sum(n << l for l in range(h, 0, -2))
+
+
+def c10_phases(ctx):
+    quick = ctx["tier"] == "quick"
+    groups = []
+    for ai, alg in enumerate(ALGS):
+        n = N_OF[alg]
+        w = [4, 4, 2, 4, 8, 4][ai]
+        params = [(w, 5)] if ai % 2 == 0 else [(w, 5), (4, 2)]
+        full = aux_full_len(alg, 5)
+        sd = seed_hex("c10/%s" % alg, alg)
+        pre = [cmd_keygen(alg, params, sd, aux={"rep": full + 40, "byte": 0}, out={"sk": "sk", "pk": "pk", "aux": "aux"}, meta={"class": "fresh_zero_roomy"}),
+               cmd_keygen(alg, params, seed_hex("c10/%s/other" % alg, alg), aux={"rep": full, "byte": 0}, out={"sk": "osk", "aux": "oaux"}, meta={"class": "fresh_zero_exact"}),
+               cmd_keygen(alg, [(8 if w != 8 else 4, 5)] + params[1:], sd, aux={"rep": full, "byte": 0}, out={"sk": "psk", "aux": "paux"}, meta={"class": "fresh_zero_exact"})]
+        ctrs = [0, 1, 17, 31] if len(params) == 1 else [0, 5, 64, 127]
+
+        def use(auxexpr, cls, both=True, **kw):
+            meta = {"class": cls}
+            meta.update(kw)
+            out = []
+            c = ctrs[det_int("c10/ctr/%s/%s/%s" % (alg, cls, json.dumps(kw, sort_keys=True)), len(ctrs))]
+            out.append(cmd_sign(alg, key_at("sk", c), msg_hex("c10/m/%s" % cls, 20), aux=auxexpr, meta=meta))
+            if both:
+                out.append(cmd_keygen(alg, params, sd, aux=auxexpr, out={"sk": "x"}, meta=meta))
+            return out
+
+        # (1) every length 0 .. full+n of a fresh (all zero) buffer and of a truncated valid buffer
+        cmds = list(pre)
+        step = 1 if not quick else 9
+        lens = sorted(set(list(range(0, 4 + n + 3)) + list(range(4 + n + 3, full + n + 1, step)) + [full - 1, full, full + 1, full + n]))
+        for ln in lens:
+            cmds += use({"rep": ln, "byte": 0}, "fresh_zero", len=ln)
+            cmds += use({"mut": slot("aux"), "kind": "trunc", "len": ln}, "valid_truncated", both=(ln % 4 == 0), len=ln)
+        groups.append({"name": "c10/%s/lengths" % alg, "cmds": cmds, "cost": 3 + 0.03 * len(cmds) * (3 if w == 8 else 1)})
+        # (2) content classes
+        cmds = list(pre)
+        for i in range(6 if quick else 30):
+            cmds += use({"cat": ["00", {"rand": full - 1, "tag": "c10/g0/%s/%d" % (alg, i)}]}, "fresh_garbage_first_byte_zero", i=i)
+            cmds += use({"cat": ["%02x" % (1 + det_int("c10/fb/%d" % i, 255)), {"rand": full - 1, "tag": "c10/g1/%s/%d" % (alg, i)}]}, "garbage_first_byte_nonzero", i=i)
+            cmds += use({"rand": 1 + det_int("c10/rl/%s/%d" % (alg, i), 2 * full), "tag": "c10/gr/%s/%d" % (alg, i)}, "garbage_random_length", i=i)
+        cmds += use(slot("aux"), "valid")
+        cmds += use(slot("aux"), "valid")
+        cmds += use(slot("oaux"), "valid_other_seed")
+        cmds += use({"mut": slot("aux"), "kind": "extend", "with": "00"}, "valid_padded", ext=1)
+        cmds += use({"mut": slot("aux"), "kind": "extend", "with": {"rep": n, "byte": 0}}, "valid_padded", ext=n)
+        cmds += use({"mut": slot("aux"), "kind": "extend", "with": {"rand": 100, "tag": "c10/pad"}}, "valid_padded", ext=100)
+        cmds += use({"rep": full, "byte": 255}, "all_ones")
+        cmds += use({"mut": slot("aux"), "kind": "set", "off": 0, "with": "00"}, "valid_but_marker_cleared")
+        cmds += use(slot("paux"), "aux_same_seed_other_params")
+        # a buffer filled during SIGNING with a fresh buffer (never MACed) and re-used afterwards
+        cmds.append(cmd_sign(alg, key_at("sk", ctrs[1]), "aa", aux={"rep": full, "byte": 0}, out={"aux": "saux"}, meta={"class": "fresh_zero"}))
+        cmds += use(slot("saux"), "left_by_signing_with_fresh_buffer")
+        groups.append({"name": "c10/%s/classes" % alg, "cmds": cmds, "cost": 3 + 0.03 * len(cmds) * (3 if w == 8 else 1)})
+        # (3) every single-bit corruption of a valid buffer (stride in the quick tier)
+        nbits = full * 8
+        stride = 1 if not quick else 37
+        if w == 8:
+            stride = 3 if not quick else 149
+        bits = sorted(set(list(range(0, 40)) + list(range(40, nbits, stride)) + list(range(nbits - 8 * n - 8, nbits))))
+        chunk = 400
+        for s in range(0, len(bits), chunk):
+            cmds = list(pre)
+            for b in bits[s:s + chunk]:
+                region = "marker" if b < 8 else "level_word" if b < 32 else "mac" if b >= nbits - 8 * n else "data"
+                cmds += use({"mut": slot("aux"), "kind": "flip", "off": b // 8, "bit": 7 - b % 8}, "valid_bit_flipped", both=(b % 16 == 0), bit=b, region=region)
+            groups.append({"name": "c10/%s/bitflip/%d" % (alg, s), "cmds": cmds, "cost": 3 + 0.03 * len(cmds) * (3 if w == 8 else 1)})
+    if not quick:
+        # an H10 top tree (cached levels 10, 8, 6, 4, 2) for the cheapest hash
+        alg = "sha256_n16"
+        full = aux_full_len(alg, 10)
+        sd = seed_hex("c10/h10", alg)
+        cmds = [cmd_keygen(alg, [(8, 10)], sd, aux={"rep": full, "byte": 0}, out={"sk": "sk", "pk": "pk", "aux": "aux"}, meta={"class": "fresh_zero_exact"})]
+        for ln in [0, 3, 19, 20, 51, 52, 100, 1000, 5000, full - 1, full + 16]:
+            cmds.append(cmd_keygen(alg, [(8, 10)], sd, aux={"rep": ln, "byte": 0}, out={"sk": "x"}, meta={"class": "fresh_zero", "len": ln}))
+        for c in (0, 513, 1023):
+            cmds.append(cmd_sign(alg, key_at("sk", c), "bb", aux=slot("aux"), meta={"class": "valid"}, light=True))
+        groups.append({"name": "c10/h10", "cmds": cmds, "cost": 400})
+    return [{"tag": "c10", "groups": groups,
+             "space": "buffer lengths 0..full+n (fresh and truncated), content classes (garbage, other seed, other parameters, padded, all ones, left by signing), "
+                      "single-bit corruptions of a valid buffer, x keygen and sign, x 6 hashes"}]
+
+
+REGISTRY["C10"] = {"phases": c10_phases}
+
+
+# =================================================================================================
+# C14 - build-time limits only restrict what is accepted, never how accepted keys behave
+# =================================================================================================
+def limit_variant(levels, heights, ws):
+    name = "L%d-H%s-W%s" % (levels, "_".join(map(str, heights)), "_".join(map(str, ws)))
+    return Variant(name, (), {"HBS_LMS_MAX_ALLOWED_HSS_LEVELS": str(levels),
+                              "HBS_LMS_TREE_HEIGHTS": ", ".join(map(str, heights)),
+                              "HBS_LMS_WINTERNITZ_PARAMETERS": ", ".join(map(str, ws))})
+
+
+def blob_for(alg, params, tag):
+    from vlib import HT, WT
+    pb = bytes((HT[h] << 4) + WT[w] for w, h in params[:8]) + b"\xff" * (8 - min(8, len(params)))
+    return (bytes(8) + pb + det_bytes("c14/blob/" + tag, N_OF[alg])).hex()
+
+
+def c14_variant_groups(levels, heights, ws, vi, quick):
+    """parameter lists inside the limits (full use) and just outside (refusal)"""
+    groups = []
+    hs_avail = [2, 5, 10, 15, 20, 25]
+    w_avail = [1, 2, 4, 8]
+    algs = [ALGS[(vi + i) % 6] for i in range(2 if quick else 4)]
+    for alg in algs:
+        n = N_OF[alg]
+        # ---- inside the limits: 4-leaf trees wherever possible (any height limit admits them), the
+        # smallest Winternitz parameter the level allows; one list with the tallest affordable top tree
+        inside = [(max(ws[lv], 2), 2) for lv in range(levels)]
+        lists_in = [inside]
+        if levels >= 2:
+            lists_in.append(inside[:1])
+        for li, params in enumerate(lists_in):
+            total = lifetime_of(params)
+            ctrs = sorted(set([0, total // 2, total - 1]))
+            g = walk_group("c14/in/%s/%d" % (alg, li), alg, params, ctrs, [11, 0], lifetime=True)
+            # exhaust: the last signature wipes, afterwards refused
+            g["cmds"].append(cmd_sign(alg, key_at("sk", total - 1), "ee", out={"next": "wiped"}))
+            g["cmds"].append(cmd_sign(alg, slot("wiped"), "ef"))
+            g["cmds"].append(cmd_lifetime(alg, slot("wiped")))
+            groups.append(g)
+        if alg == algs[0]:
+            # with aux and a top tree as tall as the build allows (<= 5): a cached level equal to the build's
+            # maximum tree height must be covered by the MAC and read back
+            top = (max(ws[0], 4), 5 if heights[0] >= 5 else 2)
+            full = aux_full_len(alg, top[1])
+            cmds = [cmd_keygen(alg, [top], seed_hex("c14/aux/%s" % alg, alg), aux={"rep": full, "byte": 0},
+                               out={"sk": "ask", "pk": "apk", "aux": "aaux"}, meta={"class": "fresh_zero_exact"}),
+                    cmd_sign(alg, key_at("ask", 1), "c14a", aux=slot("aaux"), out={"sig": "asig"}, meta={"class": "valid"}),
+                    cmd_verify(alg, "c14a", slot("asig"), slot("apk")),
+                    cmd_lifetime(alg, key_at("ask", 7))]
+            groups.append({"name": "c14/aux/%s" % alg, "cmds": cmds, "cost": 1 + tree_cost(alg, *top)})
+        # ---- just outside
+        cmds = []
+        outside = []
+        if levels < 8:
+            outside.append(("one_level_too_many", inside + [(8, 2)]))
+        inside_o = inside
+        outside.append(("nine_levels", [(8, 2)] * 9))
+        for lv in range(levels):
+            taller = [h for h in hs_avail if h > heights[lv]]
+            if taller:
+                p = list(inside)
+                p[lv] = (p[lv][0], taller[0])
+                outside.append(("height_step_too_tall_level%d" % (lv + 1), p))
+            smaller = [w for w in w_avail if w < ws[lv]]
+            if smaller:
+                p = list(inside)
+                p[lv] = (smaller[-1], p[lv][1])
+                outside.append(("w_step_too_small_level%d" % (lv + 1), p))
+        for cls, params in outside:
+            meta = {"class": "beyond_limits", "how": cls}
+            cmds.append(cmd_keygen(alg, params, seed_hex("c14/out/%s" % alg, alg), out={"sk": "x", "pk": "y"}, meta=meta))
+            cmds.append(cmd_keygen(alg, params, seed_hex("c14/out/%s" % alg, alg), aux={"rep": 100, "byte": 0}, out={"sk": "x", "pk": "y"}, meta=meta))
+            if len(params) <= 8:
+                blob = blob_for(alg, params, cls)
+                cmds.append(cmd_sign(alg, blob, "0a", meta=meta))
+                cmds.append(cmd_sign(alg, blob, "0a", meta=meta, plan="reject"))
+                cmds.append(cmd_lifetime(alg, blob, meta=meta))
+                cmds.append({"op": "load", "alg": alg, "mem": "m", "key": blob, "meta": meta})
+                cmds.append(cmd_sign(alg, None, "0b", api="mem", mem="m", meta=meta))
+        groups.append({"name": "c14/out/%s" % alg, "cmds": cmds, "cost": 1.0})
+    return groups
+
+
+def c14_phases(ctx):
+    quick = ctx["tier"] == "quick"
+    configs = [(1, [5], [4]), (2, [10, 5], [2, 4]), (3, [5, 5, 5], [8, 8, 8])]
+    if not quick:
+        configs += [(4, [5, 10, 5, 5], [1, 2, 4, 8]), (1, [25], [1]), (2, [5, 5], [8, 8]), (5, [5] * 5, [4] * 5), (6, [15, 10, 5, 5, 5, 5], [2, 2, 4, 4, 8, 8]),
+                    (7, [5] * 7, [8] * 7), (8, [10, 5, 5, 5, 5, 5, 5, 5], [4] * 8), (3, [20, 15, 10], [1, 2, 4]), (2, [5, 25], [8, 1])]
+    phases = []
+    for vi, (levels, heights, ws) in enumerate(configs):
+        v = limit_variant(levels, heights, ws)
+        phases.append({"tag": "c14-" + v.name, "variant": v, "groups": c14_variant_groups(levels, heights, ws, vi, quick),
+                       "controls": vi == 0,
+                       "space": "build %s: lists inside the limits (keygen/sign/verify/lifetime/aux/exhaust) and just outside (one level too many, "
+                                "one height step too tall, one w step too small per level)" % v.name})
+    # the default build validates against the same specification: identical keys and signatures by construction
+    return phases
+
+
+REGISTRY["C14"] = {"phases": c14_phases}
+
+
+# =================================================================================================
+# C15 - fast-verify signing yields ordinary valid signatures, touching only the trailer
+# =================================================================================================
+def fv_variant(threads, budget):
+    return Variant("fv-t%d-b%d" % (threads, budget), ("fast_verify", "verbose"),
+                   {"HBS_LMS_THREADS": str(threads), "HBS_LMS_MAX_HASH_OPTIMIZATIONS": str(budget)})
+
+
+def cmd_sign_mut(alg, key, msg, plan="accept", out=None, meta=None):
+    c = {"op": "sign_mut", "alg": alg, "api": "bytes", "key": key, "msg": msg, "plan": plan}
+    if out:
+        c["out"] = out
+    if meta:
+        c["meta"] = meta
+    return c
+
+
+def c15_groups(vi, quick, reps):
+    groups = []
+    for ai, alg in enumerate(ALGS):
+        n = N_OF[alg]
+        ws = [1, 2, 4, 8]
+        wsel = ws if not quick else [ws[(ai + vi) % 4], ws[(ai + vi + 2) % 4]]
+        for w in wsel:
+            for params in ([(w, 2)], [(ws[(ws.index(w) + 1) % 4], 2), (w, 2)]):
+                if quick and len(params) == 2 and (ai + vi) % 2:
+                    continue
+                name = "c15/%s/%s" % (alg, "x".join("w%dh%d" % p for p in params))
+                cmds = [cmd_keygen(alg, params, seed_hex(name, alg))]
+                total = lifetime_of(params)
+                ctr = 0
+                for ln in [n + 1, n + 2, 100, 4096][:(4 if not quick else 3)]:
+                    for r in range(reps):
+                        body = msg_hex("%s/%d/%d" % (name, ln, r), ln - n)
+                        m = {"cat": [body, {"rep": n, "byte": 0}]}
+                        plan = "accept" if r % 3 != 2 else "reject"
+                        cmds.append(cmd_sign_mut(alg, key_at("sk", ctr % total), m, plan=plan, out={"sig": "sig", "msg_out": "mo"},
+                                                 meta={"class": "zero_trailer", "len": ln}))
+                        cmds.append(cmd_verify(alg, slot("mo"), slot("sig"), slot("pk")))
+                        ctr += 1
+                # refusal: too short, trailer not zero
+                for ln in (0, 1, n - 1, n):
+                    cmds.append(cmd_sign_mut(alg, key_at("sk", 1), {"rep": ln, "byte": 0}, meta={"class": "too_short", "len": ln}))
+                for pos in (0, n // 2, n - 1):
+                    m = {"mut": {"cat": ["a1b2c3", {"rep": n, "byte": 0}]}, "kind": "set", "off": 3 + pos, "with": "01"}
+                    cmds.append(cmd_sign_mut(alg, key_at("sk", 2), m, meta={"class": "trailer_not_zero", "pos": pos}))
+                # unusable keys
+                cmds.append(cmd_sign_mut(alg, key_at("sk", total), {"cat": ["aa", {"rep": n, "byte": 0}]}, meta={"class": "counter_out_of_range"}))
+                cmds.append(cmd_sign_mut(alg, "00" * 8 + "ff" * 8 + "00" * n, {"cat": ["aa", {"rep": n, "byte": 0}]}, meta={"class": "wiped"}))
+                # the ordinary entry point of the same build
+                cmds.append(cmd_sign(alg, key_at("sk", 3 % total), "0102", out={"sig": "s2"}))
+                cmds.append(cmd_verify(alg, "0102", slot("s2"), slot("pk")))
+                groups.append({"name": name, "cmds": cmds, "cost": 1 + tree_cost(alg, *params[0]) + len(cmds) * sign_cost(alg, params)})
+    return groups
+
+
+def c15_phases(ctx):
+    quick = ctx["tier"] == "quick"
+    configs = [(1, 200), (4, 64), (8, 3)] if quick else [(1, 200), (2, 200), (4, 64), (8, 64), (8, 3), (3, 100), (1, 1)]
+    phases = []
+    for vi, (threads, budget) in enumerate(configs):
+        v = fv_variant(threads, budget)
+        phases.append({"tag": "c15-" + v.name, "variant": v, "groups": c15_groups(vi, quick, 2 if quick else 10), "controls": vi == 0,
+                       "space": "fast_verify build with %d threads, budget %d: 6 hashes x W x messages (n+1, n+2, 100, 4096) x repetitions; refusal cases" % (threads, budget)})
+    return phases
+
+
+REGISTRY["C15"] = {"phases": c15_phases,
+                   "design": lambda ctx: [{"module": "FastVerify", "cfg": "FastVerify.cfg", "workers": 8, "xmx": "8g"},
+                                          {"module": "FastVerify", "cfg": "FastVerify_b0.cfg", "workers": 4, "xmx": "4g"},
+                                          {"module": "FastVerify", "cfg": "FastVerify_neg.cfg", "workers": 4, "xmx": "4g",
+                                           "expect": "Invariant ChoiceIsBest is violated"}]}
+
+
+# =================================================================================================
+# C16 - secret-bearing values are wiped when dropped or exhausted
+# =================================================================================================
+SECRET_TYPES = ["Seed", "SeedAndLmsTreeIdentifier", "ReferenceImplPrivateKey", "LmsPrivateKey", "LmotsPrivateKey"]
+
+
+def c16_phases(ctx):
+    quick = ctx["tier"] == "quick"
+    groups = []
+    fills = [0xa5, 0x5a, 0x3c] if quick else [0xa5, 0x5a, 0x3c, 0xc3, 0x69, 0x96, 0x1e, 0xe1]   # never 0x00/0xff: their complement is what wiping leaves
+    for alg in ALGS:
+        cmds = []
+        for ty in SECRET_TYPES:
+            for fill in fills:
+                cmds.append({"op": "hook", "hook": "zeroize", "alg": alg, "type_name": ty, "fill": fill})
+                cmds.append({"op": "hook", "hook": "drop", "alg": alg, "type_name": ty, "fill": fill})
+        groups.append({"name": "c16/%s/probes" % alg, "cmds": cmds, "cost": 0.3})
+    # exhaustion histories: the key handed to the callback by the last signature holds no seed byte
+    cyc = [["accept"], ["reject", "accept"], ["crash_after", "accept"]]
+    for ai, alg in enumerate(ALGS):
+        groups.append(lifetime_walk("c16/%s/exhaust" % alg, alg, [([1, 2, 4, 8][ai % 4], 2)], cyc[ai % 3]))
+        if not quick:
+            groups.append(lifetime_walk("c16/%s/exhaust2" % alg, alg, [(4, 2), ([1, 2, 4, 8][(ai + 1) % 4], 2)], cyc[(ai + 1) % 3]))
+    return [{"tag": "c16", "groups": groups, "trace_module": "TraceApi", "trace_cfg": "TraceApi.cfg",
+             "space": "5 secret-bearing types x {zeroize, drop in place} x sentinel bytes x 6 hashes; exhaustion histories (wiped key bytes)"}]
+
+
+REGISTRY["C16"] = {"phases": c16_phases, "level": "other",
+                   "design": lambda ctx: [{"module": "SecretLifecycle", "cfg": "SecretLifecycle.cfg", "workers": 2, "xmx": "2g"}],
+                   "coverage_extra": lambda ctx, cov: {"explanation":
+                       "drop-time wiping is a structural fact about Rust types; it is decided by a memory probe (hook constructs a populated value, "
+                       "the harness drops it in place inside zeroed storage and scans the storage) whose events are judged against the thin "
+                       "SecretLifecycle.tla table/state machine by TLC; the exhausted-key clause is decided by trace validation of complete "
+                       "lifetime walks (callback argument = WipedKey)"}}
